@@ -1,4 +1,5 @@
 import PsycheModel.Compat
+import PsycheModel.Assign
 import PsycheModel.Props.C13
 /-!
 # C11 — Well-typed programs produce no error diagnostics (the part that is decision logic over types)
@@ -117,3 +118,83 @@ example : ErrorFree (.ptr (.fn (.basic 5) .nonEmpty (.cons (.ptr (.qual 1 (.basi
   simp [ErrorFree, ErrorFreeL]
 
 end PsycheModel.Compat
+
+/-! ## Simple assignment, argument passing (6.5.16.1p1): the model of `isTypeAssignableFromOtherType` (`PsycheModel/Assign.lean`).
+No assignment the constraints allow is refused: -/
+namespace PsycheModel.Assign
+open PsycheModel.Compat
+
+/-- the unqualified type an lvalue has, an enumerated type read as `int` -/
+def core (t : Ty) : Ty := enumAsInt (stripQ t)
+
+/-- **arithmetic ← arithmetic** (first case): whatever the kinds, qualifiers and enumerated types involved -/
+theorem arithmetic_from_arithmetic (l r : Ty) (n : Bool) (hl : isArith (core l) = true) (hr : isArith (valueType r) = true) :
+    assignableFrom l r n = true := by
+  simp [assignableFrom, core] at *
+  simp [hl, hr]
+
+/-- **structure or union ← the same structure or union** (second case) -/
+theorem struct_from_same_struct (k tg : Nat) (hk : k = 0 ∨ k = 1) (ql qr : List Nat) (n : Bool) :
+    assignableFrom (ql.foldr Ty.qual (.tag k tg)) (qr.foldr Ty.qual (.tag k tg)) n = true := by
+  have hs : ∀ qs : List Nat, stripQ (qs.foldr Ty.qual (.tag k tg)) = .tag k tg := by
+    intro qs; induction qs with
+    | nil => rfl
+    | cons q qs ih => simpa [stripQ] using ih
+  rcases hk with rfl | rfl <;>
+    simp [assignableFrom, valueType, hs, enumAsInt, isArith, isBool, isSU, compat, unq, stripQ, compatCore]
+
+/-- **pointer ← pointer to the same type, whatever qualifiers either pointee carries** (third case; the model, like the code, does not ask
+that the left pointee has all the qualifiers of the right one: it accepts more than C, never less) -/
+theorem pointer_from_pointer_to_same (u : Ty) (hu : ErrorFree u) (q1 q2 : List Nat) (n : Bool) :
+    assignableFrom (.ptr (q1.foldr Ty.qual u)) (.ptr (q2.foldr Ty.qual u)) n = true := by
+  have hs : ∀ qs : List Nat, stripQ (qs.foldr Ty.qual u) = stripQ u := by
+    intro qs; induction qs with
+    | nil => rfl
+    | cons q qs ih => simpa [stripQ] using ih
+  have hc : ∀ qs : List Nat, compatCore (qs.foldr Ty.qual u) (stripQ u) true true = true := by
+    intro qs; induction qs with
+    | nil => exact core_refl_iq u true hu
+    | cons q qs ih => simp only [List.foldr_cons, compatCore, if_true, unq_true, stripQ_idem]; exact ih
+  simp [assignableFrom, valueType, stripQ, enumAsInt, isArith, isBool, isSU, compat, unq, hs, hc]
+
+/-- **pointer ← array of the same element type** (the array is converted to a pointer to its element, 6.3.2.1p3) -/
+theorem pointer_from_array (u : Ty) (hu : ErrorFree u) (n : Bool) : assignableFrom (.ptr u) (.arr u) n = true := by
+  have := core_refl_iq u true hu
+  simp [assignableFrom, valueType, stripQ, enumAsInt, isArith, isBool, isSU, compat, unq, this]
+
+/-- the non-qualifier part of a type is not the error type -/
+def Known (t : Ty) : Prop := stripQ t ≠ .error
+
+theorem void_left (t : Ty) (h : Known t) : compat .void t true true = true := by
+  unfold compat
+  simp only [unq_true]
+  cases hs : stripQ t <;> simp_all [compatCore, Known]
+
+theorem void_right : ∀ (t : Ty), Known t → compatCore t .void true true = true
+  | .qual q u, h => by simp only [compatCore, if_true, unq_true, stripQ]; exact void_right u (by simpa [Known, stripQ] using h)
+  | .basic _, _ | .void, _ | .tag _ _, _ | .ptr _, _ | .arr _, _ | .fn _ _ _, _ => by simp [compatCore]
+  | .error, h => by simp [Known, stripQ] at h
+
+/-- **pointer to void ↔ pointer to any type** (fourth case) -/
+theorem void_pointer_both_ways (t : Ty) (h : Known t) (n : Bool) :
+    assignableFrom (.ptr .void) (.ptr t) n = true ∧ assignableFrom (.ptr t) (.ptr .void) n = true := by
+  have h1 := void_left t h
+  have h2 := void_right t h
+  constructor
+  · simp [assignableFrom, valueType, stripQ, enumAsInt, isArith, isBool, isSU, h1]
+  · simp [assignableFrom, valueType, stripQ, enumAsInt, isArith, isBool, isSU, compat, unq, h2]
+
+/-- **pointer ← null pointer constant** (fifth case), of every integer type -/
+theorem pointer_from_null_constant (a : Ty) (k : Nat) (hk : k ≤ 11) : assignableFrom (.ptr a) (.basic k) true = true := by
+  simp [assignableFrom, valueType, stripQ, enumAsInt, isArith, isBool, isSU, isIntK, hk]
+
+/-- **_Bool ← pointer** (sixth case; refused by the code until it was repaired) -/
+theorem bool_from_pointer (a : Ty) (n : Bool) : assignableFrom (.basic 11) (.ptr a) n = true ∧ assignableFrom (.basic 11) (.arr a) n = true := by
+  simp [assignableFrom, valueType, stripQ, enumAsInt, isArith, isBool, isPtr]
+
+/-- what stays refused: a pointer from a non-null integer, an integer other than `_Bool` from a pointer, a structure from another one -/
+example : assignableFrom (.ptr (.basic 5)) (.basic 5) false = false ∧ assignableFrom (.basic 5) (.ptr (.basic 5)) false = false ∧
+    assignableFrom (.tag 0 1) (.tag 0 2) false = false ∧ assignableFrom (.tag 0 1) (.tag 1 1) false = false ∧
+    assignableFrom (.ptr (.basic 5)) (.ptr (.basic 12)) false = false := by decide
+
+end PsycheModel.Assign
